@@ -219,8 +219,10 @@ theorem subset_store_eq_raw (scale : α → α) (A : List (List α)) (nch : Nat)
     getD_map_idxOf (fun i => (bestChannels spikeTemplates orders nc).getD (spikeTemplates.getD i 0) [])
       [] sel q hqs, hrow q hqs]
 
-/-- the subset files always load (the store is present after an export) -/
-theorem subset_loads (scale : α → α) (A : List (List α)) (nch : Nat)
+/-- the subset files always load (the store is present after an export), and what the reloaded store holds:
+the selected ids, per selected spike the first `nc` channels of its template filled up with −1, and per selected
+spike the unit factor times the raw window of ITS sample on ITS channel row -/
+theorem subset_loads_eq (scale : α → α) (A : List (List α)) (nch : Nat)
     (ivs : List (Nat × Nat)) (hT : intervalsTile A.length ivs = true)
     (spikeSamples : List Int) (hss : spikeSamples.Pairwise (· ≤ ·))
     (hsb : ∀ s ∈ spikeSamples, 0 ≤ s ∧ s < A.length)
@@ -229,9 +231,11 @@ theorem subset_loads (scale : α → α) (A : List (List α)) (nch : Nat)
     (hord : ∀ o ∈ orders, ChOK nch o)
     (sel : List Nat) (hsel : sel.Pairwise (· < ·)) (hselb : ∀ i ∈ sel, i < spikeSamples.length)
     (n : Nat) (nc : Nat) :
-    ∃ w, loadSubset (saveSubset scale A ivs spikeSamples spikeTemplates orders sel n nc) =
+    loadSubset (saveSubset scale A ivs spikeSamples spikeTemplates orders sel n nc) =
       some ⟨sel, sel.map fun i =>
-        templateNChannels true (orders.getD (spikeTemplates.getD i 0) []) nc, w⟩ := by
+        templateNChannels true (orders.getD (spikeTemplates.getD i 0) []) nc,
+        sel.map fun i => scaleW scale (window A (spikeSamples.getD i 0) n
+          (templateNChannels true (orders.getD (spikeTemplates.getD i 0) []) nc))⟩ := by
   unfold saveSubset
   dsimp only
   have htq : ∀ i ∈ sel, spikeTemplates.getD i 0 ∈ spikeTemplates := by
@@ -248,6 +252,14 @@ theorem subset_loads (scale : α → α) (A : List (List α)) (nch : Nat)
       sel.map fun i => templateNChannels true (orders.getD (spikeTemplates.getD i 0) []) nc :=
     List.map_congr_left hrow
   rw [hchans]
+  have hw : (sel.map fun i => scaleW scale (window A (spikeSamples.getD i 0) n
+        (templateNChannels true (orders.getD (spikeTemplates.getD i 0) []) nc))) =
+      ((sel.map fun i => spikeSamples.getD i 0).zip
+        (sel.map fun i => templateNChannels true (orders.getD (spikeTemplates.getD i 0) []) nc)).map
+        fun sc => (window A sc.1 n sc.2).map fun row => row.map scale := by
+    rw [List.zip_map', List.map_map]
+    rfl
+  rw [hw]
   generalize hc : (sel.map fun i =>
     templateNChannels true (orders.getD (spikeTemplates.getD i 0) []) nc) = chans
   generalize hsamp : (sel.map fun i => spikeSamples.getD i 0) = samples
@@ -267,61 +279,141 @@ theorem subset_loads (scale : α → α) (A : List (List α)) (nch : Nat)
     obtain ⟨i, _, rfl⟩ := List.mem_map.1 hcm
     exact ⟨length_templateNChannels _ _ _, chOK_templateNChannels nch _ _ _ (chOK_getD nch orders hord _)⟩
   have hload := export_loads_windows scale A nch ivs hT samples chans hlen hsorted hb n nc hch
-  refine ⟨(samples.zip chans).map fun sc => (window A sc.1 n sc.2).map fun row => row.map scale, ?_⟩
   simp only [loadSubset, hload, Option.map_some]
 
+/-- the weaker form used by C10: the ids and the channel rows of the reloaded store -/
+theorem subset_loads (scale : α → α) (A : List (List α)) (nch : Nat)
+    (ivs : List (Nat × Nat)) (hT : intervalsTile A.length ivs = true)
+    (spikeSamples : List Int) (hss : spikeSamples.Pairwise (· ≤ ·))
+    (hsb : ∀ s ∈ spikeSamples, 0 ≤ s ∧ s < A.length)
+    (spikeTemplates : List Nat) (hst : spikeTemplates.length = spikeSamples.length)
+    (orders : List (List Int)) (hto : ∀ t ∈ spikeTemplates, t < orders.length)
+    (hord : ∀ o ∈ orders, ChOK nch o)
+    (sel : List Nat) (hsel : sel.Pairwise (· < ·)) (hselb : ∀ i ∈ sel, i < spikeSamples.length)
+    (n : Nat) (nc : Nat) :
+    ∃ w, loadSubset (saveSubset scale A ivs spikeSamples spikeTemplates orders sel n nc) =
+      some ⟨sel, sel.map fun i =>
+        templateNChannels true (orders.getD (spikeTemplates.getD i 0) []) nc, w⟩ :=
+  ⟨_, subset_loads_eq scale A nch ivs hT spikeSamples hss hsb spikeTemplates hst orders hto hord sel hsel hselb n nc⟩
+
 /-! ### `TemplateModel.get_waveforms` -/
+
+/-- a failed assertion of the lookup: it raises (and `get_waveforms` catches exactly this) -/
+theorem lookup_none_of_not_asserts (st : Store α) (query chq : List Nat) (n : Nat)
+    (h : lookupAsserts st query chq n = false) : getSpikeWaveforms st query chq n = none := by
+  unfold getSpikeWaveforms
+  unfold lookupAsserts at h
+  cases h1 : query.all st.spikeIds.contains
+  · simp
+  · cases h2 : (n == 0 || chq.isEmpty)
+    · simp [h1, h2] at h
+    · simp
+
+theorem asserts_of_lookup (st : Store α) (query chq : List Nat) (n : Nat) (W : List (List (List α)))
+    (h : getSpikeWaveforms st query chq n = some W) : lookupAsserts st query chq n = true := by
+  cases ha : lookupAsserts st query chq n
+  · rw [lookup_none_of_not_asserts st query chq n ha] at h; exact absurd h (by simp)
+  · rfl
+
+/-- the windows the raw-data route returns -/
+theorem raw_route (A : List (List α)) (nch : Nat) (spikeSamples : List Int)
+    (query chq : List Nat) (n : Nat)
+    (hqb : ∀ q ∈ query, q < spikeSamples.length)
+    (hsb : ∀ s ∈ spikeSamples, 0 ≤ s ∧ s < A.length) (hc : ∀ c ∈ chq, c < nch) :
+    extractWaveforms A (query.map fun q => spikeSamples.getD q 0) n (chq.map Int.ofNat) =
+      query.map fun q => window A (spikeSamples.getD q 0) n (chq.map Int.ofNat) := by
+  simp only [extractWaveforms, List.map_map]
+  apply List.map_congr_left
+  intro q' hq'
+  have h1 := hqb q' hq'
+  have hs : spikeSamples.getD q' 0 ∈ spikeSamples := by
+    simp only [List.getD_eq_getElem?_getD, List.getElem?_eq_getElem h1, Option.getD_some]
+    exact List.getElem_mem h1
+  simp only [Function.comp_apply]
+  apply extract_eq_window A nch _ (hsb _ hs).1 (hsb _ hs).2
+  intro c hcm
+  obtain ⟨k, hk, rfl⟩ := List.mem_map.1 hcm
+  have := hc k hk
+  exact Or.inr ⟨by simp, by simpa using this⟩
 
 theorem getWaveforms_stored (st : Store α) (A : List (List α)) (spikeSamples : List Int)
     (query chq : List Nat) (n : Nat) (W : List (List (List α)))
     (h : getSpikeWaveforms st query chq n = some W) :
-    getWaveforms (some st) A spikeSamples query chq n = W := by
-  simp [getWaveforms, h]
+    getWaveformsE (some st) A spikeSamples query chq n = some W := by
+  cases ha : lookupAsserts st query chq n
+  · rw [lookup_none_of_not_asserts st query chq n ha] at h
+    exact absurd h (by simp)
+  · simp [getWaveformsE, ha, h]
+
+/-- an exception of the lookup other than AssertionError is not caught -/
+theorem getWaveforms_propagates (st : Store α) (A : List (List α)) (spikeSamples : List Int)
+    (query chq : List Nat) (n : Nat) (ha : lookupAsserts st query chq n = true)
+    (h : getSpikeWaveforms st query chq n = none) :
+    getWaveformsE (some st) A spikeSamples query chq n = none := by
+  simp [getWaveformsE, ha, h]
 
 theorem getWaveforms_unstored (st : Store α) (A : List (List α)) (nch : Nat) (spikeSamples : List Int)
-    (query chq : List Nat) (n : Nat) (q : Nat) (hq : q ∈ query) (hns : q ∉ st.spikeIds)
+    (query chq : List Nat) (n : Nat) (hn : 0 < n) (q : Nat) (hq : q ∈ query) (hns : q ∉ st.spikeIds)
     (hqb : ∀ q ∈ query, q < spikeSamples.length)
     (hsb : ∀ s ∈ spikeSamples, 0 ≤ s ∧ s < A.length) (hc : ∀ c ∈ chq, c < nch) :
-    getWaveforms (some st) A spikeSamples query chq n =
-      query.map fun q => window A (spikeSamples.getD q 0) n (chq.map Int.ofNat) := by
-  have hnone : getSpikeWaveforms st query chq n = none := by
-    unfold getSpikeWaveforms
+    getWaveformsE (some st) A spikeSamples query chq n =
+      some (query.map fun q => window A (spikeSamples.getD q 0) n (chq.map Int.ofNat)) := by
+  have hfalse : lookupAsserts st query chq n = false := by
+    unfold lookupAsserts
     have : query.all st.spikeIds.contains = false := by
       rw [List.all_eq_false]
       exact ⟨q, hq, by simpa using hns⟩
     simp [this]
-  simp only [getWaveforms, hnone, Option.getD_none, extractWaveforms, List.map_map]
-  apply List.map_congr_left
-  intro q' hq'
-  have h1 := hqb q' hq'
-  have hs : spikeSamples.getD q' 0 ∈ spikeSamples := by
-    simp only [List.getD_eq_getElem?_getD, List.getElem?_eq_getElem h1, Option.getD_some]
-    exact List.getElem_mem h1
-  simp only [Function.comp_apply]
-  apply extract_eq_window A nch _ (hsb _ hs).1 (hsb _ hs).2
-  intro c hcm
-  obtain ⟨k, hk, rfl⟩ := List.mem_map.1 hcm
-  have := hc k hk
-  exact Or.inr ⟨by simp, by simpa using this⟩
+  have hn' : (n == 0) = false := by simp; omega
+  simp only [getWaveformsE, hfalse, hn', Bool.false_eq_true, if_false,
+    raw_route A nch spikeSamples query chq n hqb hsb hc]
 
 theorem getWaveforms_raw (A : List (List α)) (nch : Nat) (spikeSamples : List Int)
-    (query chq : List Nat) (n : Nat)
+    (query chq : List Nat) (n : Nat) (hn : 0 < n)
     (hqb : ∀ q ∈ query, q < spikeSamples.length)
     (hsb : ∀ s ∈ spikeSamples, 0 ≤ s ∧ s < A.length) (hc : ∀ c ∈ chq, c < nch) :
-    getWaveforms none A spikeSamples query chq n =
-      query.map fun q => window A (spikeSamples.getD q 0) n (chq.map Int.ofNat) := by
-  simp only [getWaveforms, extractWaveforms, List.map_map]
-  apply List.map_congr_left
-  intro q' hq'
-  have h1 := hqb q' hq'
-  have hs : spikeSamples.getD q' 0 ∈ spikeSamples := by
-    simp only [List.getD_eq_getElem?_getD, List.getElem?_eq_getElem h1, Option.getD_some]
-    exact List.getElem_mem h1
-  simp only [Function.comp_apply]
-  apply extract_eq_window A nch _ (hsb _ hs).1 (hsb _ hs).2
-  intro c hcm
-  obtain ⟨k, hk, rfl⟩ := List.mem_map.1 hcm
-  have := hc k hk
-  exact Or.inr ⟨by simp, by simpa using this⟩
+    getWaveformsE none A spikeSamples query chq n =
+      some (query.map fun q => window A (spikeSamples.getD q 0) n (chq.map Int.ofNat)) := by
+  have hn' : (n == 0) = false := by simp; omega
+  simp only [getWaveformsE, hn', Bool.false_eq_true, if_false,
+    raw_route A nch spikeSamples query chq n hqb hsb hc]
+
+/-- `save_spikes_subset_waveforms` followed by `get_waveforms` on the reloaded store, both branches: when every
+requested spike was selected the store answers (`lookupSpec`), as soon as one was not the raw data answer -/
+theorem getWaveforms_after_save (scale : α → α) (A : List (List α)) (nch : Nat)
+    (ivs : List (Nat × Nat)) (hT : intervalsTile A.length ivs = true)
+    (spikeSamples : List Int) (hss : spikeSamples.Pairwise (· ≤ ·))
+    (hsb : ∀ s ∈ spikeSamples, 0 ≤ s ∧ s < A.length)
+    (spikeTemplates : List Nat) (hst : spikeTemplates.length = spikeSamples.length)
+    (orders : List (List Int)) (hto : ∀ t ∈ spikeTemplates, t < orders.length)
+    (hord : ∀ o ∈ orders, ChOK nch o)
+    (sel : List Nat) (hsel : sel.Pairwise (· < ·)) (hselb : ∀ i ∈ sel, i < spikeSamples.length)
+    (n : Nat) (hn : 0 < n) (nc : Nat)
+    (query : List Nat) (hqb : ∀ q ∈ query, q < spikeSamples.length)
+    (chq : List Nat) (hchq : chq ≠ []) (hc : ∀ c ∈ chq, c < nch) :
+    getWaveformsE (loadSubset (saveSubset scale A ivs spikeSamples spikeTemplates orders sel n nc))
+        A spikeSamples query chq n =
+      some (if query.all sel.contains then
+          query.map fun q => lookupSpec scale A (spikeSamples.getD q 0) n
+            (templateNChannels true (orders.getD (spikeTemplates.getD q 0) []) nc) chq
+        else query.map fun q => window A (spikeSamples.getD q 0) n (chq.map Int.ofNat)) := by
+  have hload := subset_loads_eq scale A nch ivs hT spikeSamples hss hsb spikeTemplates hst orders hto hord
+    sel hsel hselb n nc
+  cases hall : query.all sel.contains
+  · -- some requested spike is not stored
+    rw [hload]
+    obtain ⟨q, hq, hqn⟩ := List.all_eq_false.1 hall
+    simp only [Bool.false_eq_true, if_false]
+    exact getWaveforms_unstored _ A nch spikeSamples query chq n hn q hq (by simpa using hqn) hqb hsb hc
+  · have hq : ∀ q ∈ query, q ∈ sel := by
+      intro q hq
+      have := List.all_eq_true.1 hall q hq
+      simpa using this
+    have key := subset_store_eq_raw scale A nch ivs hT spikeSamples hss hsb spikeTemplates hst orders hto hord
+      sel hsel hselb n hn nc query hq chq hchq
+    rw [hload] at key ⊢
+    simp only [Option.bind_some] at key
+    simp only [if_true]
+    exact getWaveforms_stored _ A spikeSamples query chq n _ key
 
 end PhyVerif.C03.Lemmas
